@@ -5,8 +5,13 @@ worker jobs have drained, the database is reopened by fresh objects and compared
 specification of the chain up to the stored height; every block whose processing had completed
 before the request must be included.
 
-Direct oracle only for the end state (the protocol model `EV.Shutdown` is tied by the flush/lock
-event trace: see `trace`)."""
+Direct oracle for the end state.  Two models are tied to the real task by trace replay:
+  * the monitor `EV.Shutdown` by the lock / job trace (`trace`, `evdrv shutdown`);
+  * the task-level model `EV.ShutdownTask` by the full event trace of the run (`ttrace`,
+    `evdrv shutdowntask`): control points of the outer task, lock acquisitions of the inner tasks,
+    job kind and argument at every job end (with the three heights after it), deliveries, cache
+    pressure, forced reorgs, the shutdown request, how the task ended - and the model's store after
+    `_open_dbs` must equal the dump of the real reopened database row by row (`task_lines`)."""
 import asyncio
 
 from harness.common import SuiteResult, rng_for, run_evdrv
@@ -19,7 +24,7 @@ from harness.world.server import World
 SCRIPTS = NORMAL_SCRIPTS + UNSPENDABLE_SCRIPTS
 
 
-def one_run(res, seed, idx, cancel_at, phase, job_bias, pressure=None):
+def one_run(res, seed, idx, cancel_at, phase, job_bias, pressure=None, defer=None):
     """Returns (fails, n_iterations, info).  cancel_at = loop iteration at which shutdown is requested
     (None: never; used to measure the length of the run)."""
     rng = rng_for(seed, 'shutdown', idx)
@@ -81,14 +86,23 @@ def one_run(res, seed, idx, cancel_at, phase, job_bias, pressure=None):
                 return 0
             return task_ids.setdefault(t, len(task_ids) + 1)
 
+        sec = {'undelivered': False}
+
         class LogLock(asyncio.Lock):
             async def acquire(self):
                 r = await super().acquire()
                 trace.append(f'A {tid()}')
+                # which section this inner task runs: the coroutine handed to run_with_lock
+                c = asyncio.current_task().get_coro().cr_frame.f_locals.get('coro')
+                sec['undelivered'] = False
+                sec['tev']('HS' if c is not None and c.cr_code.co_name == 'flush_if_safe' else 'IS')
                 return r
 
             def release(self):
                 trace.append(f'L {tid()}')
+                if sec['undelivered']:
+                    sec['undelivered'] = False
+                    sec['tev']('DL')
                 super().release()
         w.bp.state_lock = LogLock()
         orig_submit = w.loop.submit
@@ -99,19 +113,113 @@ def one_run(res, seed, idx, cancel_at, phase, job_bias, pressure=None):
                 t = tid()
                 trace.append(f'JS {t}')
 
-                def logged(*a, func=func, t=t):
+                def logged(*a, func=func, t=t, name=name):
                     try:
                         return func(*a)
                     finally:
                         trace.append(f'JE {t}')
+                        if name == 'advance_block':
+                            what = f'adv {sec["gid"](a[0].hex_hash)} {d.cached_height()}'
+                        elif name == 'backup_block':
+                            what = f'backup {sec["gid"](a[0].hex_hash)}'
+                        else:
+                            what = f'flush {int(bool(a[1]))}'
+                        sec['undelivered'] = True
+                        sec['tev']('JE ' + what, heights=True)
                 logged.__name__ = name
                 return orig_submit(logged, *args)
             return orig_submit(func, *args)
         w.loop.submit = submit
         info['trace'] = trace
+        # ---- event trace of the task for the task-level model EV.ShutdownTask: [line, expected
+        # heights after it or None] (see lean/EV/Drv/ShutdownTask.lean for the line protocol)
+        ttrace = []
+        info['ttrace'] = ttrace
+        info['act'] = act
+        info['gen'] = gen
+        tstate = {'begun': False, 'sleeping': False}
+        sec['w'] = w
+        sec['ttrace'] = ttrace
+        sec['gid'] = lambda hex_hash: next(b.id for b in gen.blocks if b.hex_hash == hex_hash)
+
+        def tev(line, heights=False):
+            ttrace.append([line, f'{w.bp.state.height} {w.db.state.height} {w.db.fs_height}' if heights else None])
+        sec['tev'] = tev
+
+        def before_body():
+            if not tstate['begun']:
+                tstate['begun'] = True
+                tev('BG')
+            if tstate['sleeping']:
+                tstate['sleeping'] = False
+                tev('WK')
+        orig_nbh = w.bp.next_block_hashes
+
+        async def next_block_hashes():
+            before_body()
+            hex_hashes, dh = await orig_nbh()
+            tev('FE ' + ' '.join(str(sec['gid'](h)) for h in hex_hashes) if hex_hashes else 'FN')
+            return hex_hashes, dh
+        w.bp.next_block_hashes = next_block_hashes
+        orig_advs = w.bp.advance_blocks
+
+        async def advance_blocks(hex_hashes):
+            await orig_advs(hex_hashes)
+            tev('EB')
+        w.bp.advance_blocks = advance_blocks
+        orig_cu = w.bp.on_caught_up
+
+        async def on_caught_up():
+            await orig_cu()
+            tev('CU')
+            tstate['sleeping'] = True
+        w.bp.on_caught_up = on_caught_up
+        orig_rh = w.bp._reorg_hashes
+
+        async def _reorg_hashes(count):
+            start, hex_hashes = await orig_rh(count)
+            tev('RR ' + ' '.join(str(sec['gid'](h)) for h in reversed(hex_hashes)))
+            return start, hex_hashes
+        w.bp._reorg_hashes = _reorg_hashes
+        orig_reorg2 = w.bp.reorg_chain
+
+        async def reorg_chain(count):
+            before_body()
+            await orig_reorg2(count)
+            tev('ER')
+        w.bp.reorg_chain = reorg_chain
+        orig_rwl = w.bp.run_with_lock
+
+        async def run_with_lock(coro):
+            name = coro.cr_code.co_name
+            if name == 'advance_and_maybe_flush':
+                tev('NB')
+            elif name == 'run_in_thread':
+                tev('NK')
+            try:
+                r = await orig_rwl(coro)
+            except asyncio.CancelledError:
+                raise
+            except BaseException:
+                tev('RS')
+                raise
+            if name != 'flush_if_safe':
+                tev('RS')
+            return r
+        w.bp.run_with_lock = run_with_lock
+        orig_flush = w.bp.flush
+
+        async def flush(arg):
+            if sec['undelivered']:       # the second job of advance_and_maybe_flush
+                sec['undelivered'] = False
+                tev('DL')
+            return await orig_flush(arg)
+        w.bp.flush = flush
+        # (defined before the task starts: the advance_block wrapper above reads it, and a first block
+        # can be advanced while the daemon's height is still being fetched below)
+        state = {'phase_started': None, 'requested': False}
         w.spawn('bp', w.bp.fetch_and_process_blocks(w.caught_up_event, w.shutdown_event))
         w.run(d.height())
-        state = {'phase_started': None, 'requested': False}
 
         def script(loop):
             if phase == 'initial_reorg' and not state.get('switched') and w.bp.state is not None \
@@ -130,6 +238,7 @@ def one_run(res, seed, idx, cancel_at, phase, job_bias, pressure=None):
                 d.switch(b)
             if pressure and w.bp.state is not None and prng.random() < 0.12:
                 w.bp.force_flush_arg = {'hist': False, 'full': True}.get(pressure, prng.random() < 0.3)
+                tev(f'PR {int(w.bp.force_flush_arg)}')
                 info['pressure_events'] = info.get('pressure_events', 0) + 1
             # environment: once caught up, feed the phase's events
             if phase != 'initial_reorg' and w.caught_up_event.is_set() and state['phase_started'] is None:
@@ -143,7 +252,8 @@ def one_run(res, seed, idx, cancel_at, phase, job_bias, pressure=None):
                         b = gen.new_block(b, max_txs=3)
                     d.switch(b)
                 elif phase == 'forced_reorg':
-                    w.bp.force_chain_reorg(2)
+                    if w.bp.force_chain_reorg(2):
+                        tev('FR 2')
             start = 0 if phase == 'initial' else state['phase_started']
             if cancel_at is not None and not state['requested'] and start is not None \
                     and loop.iterations >= start + cancel_at:
@@ -152,6 +262,7 @@ def one_run(res, seed, idx, cancel_at, phase, job_bias, pressure=None):
                 info['height_at_request'] = w.bp.state.height if w.bp.state else None
                 w.shutdown_event.set()
                 w.tasks['bp'].cancel()
+                tev('CN')
         w.loop.on_iteration = script
 
         async def wait_done():
@@ -173,12 +284,15 @@ def one_run(res, seed, idx, cancel_at, phase, job_bias, pressure=None):
             fails.append(('shutdown', f'the processing task failed with {w.errors[0][1]!r}'))
         info['iterations'] = w.loop.iterations - (0 if phase == 'initial' else (state['phase_started'] or 0))
         info['requested'] = state['requested']
+        t = w.tasks['bp']
+        info['task_end'] = ('running' if not t.done() else 'died' if t.cancelled() or t.exception() is not None
+                            else 'returned')
         # ---- reopen and judge
         w.db.utxo_db.close()
         w.db.utxo_db = None
         w.db.history.close_db()
         if state['requested'] and not fails:
-            fails += judge(w, d, gen, act, info)
+            fails += judge(w, d, gen, act, info, defer=defer)
     finally:
         try:
             for t in w.tasks.values():
@@ -190,7 +304,7 @@ def one_run(res, seed, idx, cancel_at, phase, job_bias, pressure=None):
     return fails, info
 
 
-def judge(w, d, gen, act, info, reorg_limit=5):
+def judge(w, d, gen, act, info, reorg_limit=5, defer=None):
     """Fresh DB objects on the directory; compare every observable with the Lean specification of
     the daemon's chain... of the *indexed* chain up to the stored height."""
     fails = []
@@ -212,6 +326,7 @@ def judge(w, d, gen, act, info, reorg_limit=5):
     if r != 'ok':
         return [('reopen', f'the database does not open after shutdown: {r}')]
     h = ri.db.state.height
+    info['reopened'] = [ri.q_state(), ri.dump()]
     if h < info.get('completed_at_request', -1):
         fails.append(('kept_work', f'block {info["completed_at_request"]} had been processed completely before the '
                                    f'shutdown request but the stored height is {h}'))
@@ -241,14 +356,63 @@ def judge(w, d, gen, act, info, reorg_limit=5):
         expect.append(ask(ri.q_txhashes, hh))
     lines.append('S_STATE')
     expect.append(ask(ri.q_state))
-    got = run_evdrv('index', lines)
-    for l, e, g in zip(lines, expect, got):
-        if e != g:
-            fails.append(('consistent', f'after shutdown and reopen at height {h}: {l[:60]}: the database says '
-                                        f'{e[:200]} but the chain up to that height implies {g[:200]}'))
-            break
+    if defer is not None:
+        # `run` compares all runs' answers with the specification in one driver process
+        info['spec_check'] = (lines, expect, h)
+    else:
+        fails += spec_mismatch(lines, expect, run_evdrv('index', lines), h)
     ri.close_dbs()
     return fails
+
+
+def spec_mismatch(lines, expect, got, h):
+    for l, e, g in zip(lines, expect, got):
+        if e != g:
+            return [('consistent', f'after shutdown and reopen at height {h}: {l[:60]}: the database says '
+                                   f'{e[:200]} but the chain up to that height implies {g[:200]}')]
+    return []
+
+
+def _mask_first_sync(dump):
+    # `state.first_sync` is not modelled (EV.ShutdownTask leaves `on_caught_up`'s assignment out)
+    import re
+    return re.sub(r'( \| us [^|]*),[01] \| hist ', r'\1,_ | hist ', dump)
+
+
+def task_lines(info):
+    """The run's event trace as `evdrv shutdowntask` lines and what the model must answer: every
+    event accepted, the three heights after every worker job, how the task ended, and the reopened
+    database (state record and full store dump) as `judge` read it back from the real directory."""
+    gen = info['gen']
+    lines = [f'CFG {info["act"]} 5'] + [b.model_line() for b in gen.blocks] + ['R']
+    expect = ['ok'] * len(lines)
+    for line, heights in info['ttrace']:
+        lines.append(line)
+        expect.append(('heights', heights) if heights else ('accept',))
+    lines.append('END')
+    expect.append(('end', info['task_end']))
+    if 'reopened' in info:
+        lines += ['REOPEN', 'DUMP']
+        expect += ['ok ' + info['reopened'][0], ('dump', _mask_first_sync(info['reopened'][1]))]
+    return lines, expect
+
+
+def task_mismatch(lines, expect, got):
+    """First line on which the model and the real run differ, or None."""
+    for i, (l, e, g) in enumerate(zip(lines, expect, got)):
+        if isinstance(e, str):
+            okay = e == g
+        elif e[0] == 'accept':
+            okay = g.startswith('ok ')
+        elif e[0] == 'heights':
+            okay = g.startswith('ok ') and ' '.join(g.split()[2:5]) == e[1]
+        elif e[0] == 'end':
+            okay = g.split()[:2] == [e[1], 'drained']
+        else:
+            okay = _mask_first_sync(g) == e[1]
+        if not okay:
+            return i, l, (e if isinstance(e, str) else ' '.join(str(x) for x in e)), g
+    return None
 
 
 def run(tier, seed):
@@ -259,6 +423,8 @@ def run(tier, seed):
                 'a flush or a block advance is mid-way; non-trivial = the request lands while a worker job is running or queued')
     phases = ['initial', 'initial_reorg', 'caught_up', 'reorg', 'forced_reorg']
     all_traces = []
+    task_cases = []
+    spec_cases = []
     nchains = 6 if tier == 'quick' else 12
     for idx in range(nchains):
         for phase in phases:
@@ -269,7 +435,9 @@ def run(tier, seed):
                 n = min(info0.get('iterations', 0), 400)
                 stride = max(1, n // (16 if tier == 'quick' else 60))
                 for k in sorted(set(range(0, min(n, 6))) | set(range(0, n, stride))):
-                    fails, info = one_run(res, seed, idx, k, phase, job_bias, pressure)
+                    fails, info = one_run(res, seed, idx, k, phase, job_bias, pressure, defer=True)
+                    if 'spec_check' in info:
+                        spec_cases.append(([idx, k, phase, job_bias, pressure], info.pop('spec_check')))
                     res.note_case(f'{idx},{phase},{job_bias},{k},{pressure}', nontrivial=True)
                     res.bump('cache_pressure_events', info.get('pressure_events', 0))
                     res.bump(f'requests_in_phase_{phase}')
@@ -291,6 +459,19 @@ def run(tier, seed):
                         elif ev.startswith('JE'):
                             running -= 1
                     all_traces.append(([idx, k, phase, job_bias, pressure], trace))
+                    if info.get('requested') and 'ttrace' in info and 'task_end' in info:
+                        task_cases.append(([idx, k, phase, job_bias, pressure], task_lines(info)))
+                        res.bump('task_end_' + info['task_end'])
+    # the reopened databases against the Lean specification (one driver process for all runs)
+    sl = [l for _c, (ls, _e, _h) in spec_cases for l in ls]
+    got = run_evdrv('index', sl) if sl else []
+    pos = 0
+    for case, (ls, ex, h) in spec_cases:
+        out = got[pos:pos + len(ls)]
+        pos += len(ls)
+        for c, dtl in spec_mismatch(ls, ex, out, h):
+            if len(res.violations) < 3:
+                res.violations.append({'suite': 'shutdown', 'clause': c, 'detail': dtl, 'seed': seed, 'case': case})
     lines = [l for _c, t in all_traces for l in t]
     got = run_evdrv('shutdown', lines)
     pos = 0
@@ -303,6 +484,55 @@ def run(tier, seed):
                                       'code': 'real trace: ' + ' '.join(t[max(0, i - 12):i + 1]),
                                       'model': f'rejects event {t[i]} (breaks the locking discipline)'})
     res.bump('trace_events', len(lines))
+    # ---- second pass: every run replayed on the task-level model EV.ShutdownTask
+    tl = [l for _c, (ls, _e) in task_cases for l in ls]
+    try:
+        run_evdrv('shutdowntask', ['R'])
+    except RuntimeError as e:
+        if 'usage' not in str(e):
+            raise
+        # an `evdrv` built before `shutdowntask` was added to lean/Driver.lean: the second pass
+        # cannot run (visible in the statistics; see integration/c06task.md)
+        res.bump('task_model_driver_missing')
+        task_cases, tl = [], []
+    got = run_evdrv('shutdowntask', tl) if tl else []
+    pos = 0
+    for case, (ls, ex) in task_cases:
+        out = got[pos:pos + len(ls)]
+        pos += len(ls)
+        mm = task_mismatch(ls, ex, out)
+        res.bump('task_model_replays')
+        res.bump('task_model_events', len(ls))
+        if any(l in ('NK',) for l in ls):
+            res.bump('task_model_replays_with_backup')
+        if 'CN' in ls:
+            # where the request landed, in the model's terms: control point of the outer task (the
+            # state before the request) and the inner task / worker job in flight
+            i = ls.index('CN')
+            before = out[i - 1].split() if out[i - 1].startswith('ok ') and len(out[i - 1].split()) > 1 else ['ok', 'start']
+            at = out[i].split()
+            if len(at) >= 6:
+                import re
+                res.bump('request_at_' + re.sub(r'[0-9]+$', '', before[1]) + '_inner_' + at[5])
+        if mm is not None and len(res.disagreements) < 3:
+            i, l, e, g = mm
+            res.disagreements.append({'suite': 'shutdown', 'case': case, 'seed': seed,
+                                      'code': f'real task, event {i} `{l[:60]}`: {e[:300]}',
+                                      'model': f'EV.ShutdownTask answers {g[:300]}; preceding events: '
+                                               + ' | '.join(x[:24] for x in ls[max(0, i - 14):i] if not x.startswith('BLK'))})
+    for case, (ls, _ex) in task_cases:
+        if 'NK' in ls and 'CN' in ls and ls.index('CN') > ls.index('NK'):
+            ev = [l for l in ls if not l.startswith(('BLK', 'CFG', 'PR '))]
+            i = ev.index('CN')
+            res.sample({'task_model_replay': case, 'events_around_the_request': ev[max(0, i - 12):i + 10]})
+            break
+    if tier != 'quick' or task_cases:
+        if not res.stats.get('task_model_replays_with_backup'):
+            res.harness_errors.append('no replayed run reached a back-out section')
+        for want in ('_inner_job-adv', '_inner_job-flush', '_inner_job-backup', '_inner_jobDone-', '_inner_wantLock',
+                     'request_at_secReady', 'request_at_start'):
+            if not any(want in k for k in res.stats):
+                res.harness_errors.append(f'no shutdown request landed in a state matching {want}')
     res.sample({'phase': 'caught_up', 'request_at_iteration': 7, 'trace': all_traces[0][1][:24] if all_traces else []})
     return res
 
